@@ -1,3 +1,640 @@
 (** * ExprRefProofs: lemmas about Models/ExprRef.v (C02) *)
 From Coq Require Import ZArith NArith List Bool Lia.
-From Cohdl Require Import Base.Bits Vhdl.Value Vhdl.NumStd Models.ExprRef.
+From Cohdl Require Import Base.Bits Vhdl.Value Vhdl.NumStd Equiv.RefTS Models.ExprRef.
+Import ListNotations.
+Local Open Scope Z_scope.
+
+(** ** a nested induction principle for [texp] *)
+Definition optP (P : texp -> Prop) (d : option texp) : Prop := match d with Some x => P x | None => True end.
+
+Section TexpInd.
+  Variable P : texp -> Prop.
+  Hypothesis HIn : forall k ti, P (XIn k ti).
+  Hypothesis HConst : forall k w z, P (XConst k w z).
+  Hypothesis HUn : forall op a, P a -> P (XUn op a).
+  Hypothesis HBin : forall op a b, P a -> P b -> P (XBin op a b).
+  Hypothesis HCmp : forall op a b, P a -> P b -> P (XCmp op a b).
+  Hypothesis HChain : forall a rest, P a -> Forall (fun p => P (snd p)) rest -> P (XChain a rest).
+  Hypothesis HIdxC : forall a i, P a -> P (XIdxC a i).
+  Hypothesis HIdx : forall a i, P a -> P i -> P (XIdx a i).
+  Hypothesis HSlice : forall a hi lo, P a -> P (XSlice a hi lo).
+  Hypothesis HView : forall v a, P a -> P (XView v a).
+  Hypothesis HResize : forall a n z, P a -> P (XResize a n z).
+  Hypothesis HIte : forall c a b, P c -> P a -> P b -> P (XIte c a b).
+  Hypothesis HSel : forall s br d, P s -> Forall (fun p => P (snd p)) br -> optP P d -> P (XSel s br d).
+  Hypothesis HAny : forall l, Forall P l -> P (XAny l).
+  Hypothesis HAll : forall l, Forall P l -> P (XAll l).
+  Hypothesis HArr : forall l, Forall P l -> P (XArr l).
+
+  Fixpoint texp_ind' (e : texp) : P e :=
+    let go := fix go (l : list texp) : Forall P l :=
+      match l with [] => Forall_nil _ | x :: r => Forall_cons x (texp_ind' x) (go r) end in
+    let gop := fun (A : Type) => fix gop (l : list (A * texp)) : Forall (fun p => P (snd p)) l :=
+      match l with
+      | [] => Forall_nil _
+      | p :: r => Forall_cons p (match p as q return P (snd q) with (_, x) => texp_ind' x end) (gop r)
+      end in
+    match e with
+    | XIn k t => HIn k t
+    | XConst k w z => HConst k w z
+    | XUn op a => HUn op a (texp_ind' a)
+    | XBin op a b => HBin op a b (texp_ind' a) (texp_ind' b)
+    | XCmp op a b => HCmp op a b (texp_ind' a) (texp_ind' b)
+    | XChain a rest => HChain a rest (texp_ind' a) (gop cop rest)
+    | XIdxC a i => HIdxC a i (texp_ind' a)
+    | XIdx a i => HIdx a i (texp_ind' a) (texp_ind' i)
+    | XSlice a hi lo => HSlice a hi lo (texp_ind' a)
+    | XView v a => HView v a (texp_ind' a)
+    | XResize a n z => HResize a n z (texp_ind' a)
+    | XIte c a b => HIte c a b (texp_ind' c) (texp_ind' a) (texp_ind' b)
+    | XSel s br d => HSel s br d (texp_ind' s) (gop Z br)
+                       (match d as o return optP P o with Some x => texp_ind' x | None => I end)
+    | XAny l => HAny l (go l)
+    | XAll l => HAll l (go l)
+    | XArr l => HArr l (go l)
+    end.
+End TexpInd.
+
+(** ** basic facts *)
+Lemma kind_eqb_ok a b : kind_eqb a b = true <-> a = b.
+Proof. destruct a, b; cbn; split; congruence. Qed.
+
+Lemma kind_eqb_refl a : kind_eqb a a = true.
+Proof. destruct a; reflexivity. Qed.
+
+Lemma ty_eqb_ok a b : ty_eqb a b = true <-> a = b.
+Proof.
+  destruct a, b; cbn; try (split; congruence).
+  - rewrite andb_true_iff, kind_eqb_ok, N.eqb_eq. split; [intros [-> ->]; reflexivity|intros [= -> ->]; auto].
+  - rewrite !andb_true_iff, kind_eqb_ok, !N.eqb_eq. split; [intros [[-> ->] ->]; reflexivity|intros [= -> -> ->]; auto].
+Qed.
+
+Lemma ty_eqb_refl a : ty_eqb a a = true.
+Proof. apply ty_eqb_ok; reflexivity. Qed.
+
+Lemma vok_TV t k w z :
+  vok t (TV k w z) = true <-> t = Ty k w /\ wf_scalar k w = true /\ in_range k w z = true.
+Proof. cbn. rewrite !andb_true_iff, ty_eqb_ok. tauto. Qed.
+
+Lemma vok_TA t k w l :
+  vok t (TA k w l) = true -> t = TyArr k w (N.of_nat (length l)) /\ wf_scalar k w = true /\ forallb (in_range k w) l = true.
+Proof. unfold vok. rewrite !andb_true_iff, ty_eqb_ok. tauto. Qed.
+
+Lemma vok_tyv t v : vok t v = true -> v = TUndef \/ tyv v = Some t.
+Proof.
+  destruct v as [k w z|k w l|]; cbn; [| |auto].
+  - rewrite !andb_true_iff, ty_eqb_ok. intros [[-> _] _]. auto.
+  - rewrite !andb_true_iff, ty_eqb_ok. intros [[[-> _] _] _]. auto.
+Qed.
+
+Lemma zb_range b : in_range KBool 1 (zb b) = true.
+Proof. destruct b; reflexivity. Qed.
+
+Lemma zb_range_bit b : in_range KBit 1 (zb b) = true.
+Proof. destruct b; reflexivity. Qed.
+
+Lemma vok_bool b : vok (Ty KBool 1) (TV KBool 1 (zb b)) = true.
+Proof. destruct b; reflexivity. Qed.
+
+Lemma vok_bit b : vok (Ty KBit 1) (TV KBit 1 (zb b)) = true.
+Proof. destruct b; reflexivity. Qed.
+
+Lemma wf_pos k w : wf_scalar k w = true -> is_vec k = true -> (0 < w)%N.
+Proof. destruct k; cbn; try discriminate; intros H _; apply N.ltb_lt; exact H. Qed.
+
+(** the result of every operator is brought into the range of its type *)
+Lemma norm_ok k w z : wf_scalar k w = true -> in_range k w (norm k w z) = true.
+Proof.
+  destruct k; cbn; intros Hw.
+  - pose proof (Z.mod_pos_bound z 2 ltac:(lia)). apply andb_true_iff; split; [apply Z.leb_le|apply Z.leb_le]; lia.
+  - pose proof (Z.mod_pos_bound z 2 ltac:(lia)). apply andb_true_iff; split; [apply Z.leb_le|apply Z.leb_le]; lia.
+  - pose proof (wrap_range w z). apply andb_true_iff; split; [apply Z.leb_le|apply Z.ltb_lt]; lia.
+  - pose proof (wrap_range w z). apply andb_true_iff; split; [apply Z.leb_le|apply Z.ltb_lt]; lia.
+  - apply N.ltb_lt in Hw. pose proof (sval_range w (wrap w z) Hw (wrap_range w z)).
+    apply andb_true_iff; split; [apply Z.leb_le|apply Z.ltb_lt]; lia.
+  - reflexivity.
+  - apply N.ltb_lt in Hw. pose proof (Z.mod_pos_bound z (Z.of_N w) ltac:(lia)).
+    apply andb_true_iff; split; [apply Z.leb_le|apply Z.ltb_lt]; lia.
+Qed.
+
+Lemma mk_ok k w z : wf_scalar k w = true -> vok (Ty k w) (mk k w z) = true.
+Proof. intros H. unfold mk. apply vok_TV. auto using norm_ok. Qed.
+
+(** a value that is already in range is not changed by [norm] *)
+Lemma norm_id k w z : wf_scalar k w = true -> in_range k w z = true -> norm k w z = z.
+Proof.
+  destruct k; cbn; intros Hw Hr; try reflexivity.
+  - apply andb_true_iff in Hr. destruct Hr as [A B]. apply Z.leb_le in A, B. apply Z.mod_small; lia.
+  - apply andb_true_iff in Hr. destruct Hr as [A B]. apply Z.leb_le in A, B. apply Z.mod_small; lia.
+  - apply andb_true_iff in Hr. destruct Hr as [A B]. apply Z.leb_le in A. apply Z.ltb_lt in B. apply wrap_small; lia.
+  - apply andb_true_iff in Hr. destruct Hr as [A B]. apply Z.leb_le in A. apply Z.ltb_lt in B. apply wrap_small; lia.
+  - apply andb_true_iff in Hr. destruct Hr as [A B]. apply Z.leb_le in A. apply Z.ltb_lt in B.
+    apply N.ltb_lt in Hw. apply sval_wrap; [exact Hw|lia].
+  - apply andb_true_iff in Hr. destruct Hr as [A B]. apply Z.leb_le in A. apply Z.ltb_lt in B. apply Z.mod_small; lia.
+Qed.
+
+(** ** result types are well formed *)
+Ltac ifs H :=
+  repeat match type of H with
+         | (if ?c then _ else _) = _ => let E := fresh "E" in destruct c eqn:E; try discriminate H
+         end.
+
+Lemma bin_ty_scalar op ta tb t : bin_ty op ta tb = Some t -> exists k w, t = Ty k w.
+Proof.
+  destruct ta as [ka wa|], tb as [kb wb|]; cbn; try discriminate.
+  destruct op, ka, kb; cbn; intros H; try discriminate H; ifs H; inversion H; eauto.
+Qed.
+
+Lemma bin_ty_wf op ka wa kb wb k w :
+  bin_ty op (Ty ka wa) (Ty kb wb) = Some (Ty k w) ->
+  wf_scalar ka wa = true -> wf_scalar kb wb = true -> wf_scalar k w = true.
+Proof.
+  destruct op, ka, kb; cbn; intros H A B; try discriminate H; ifs H; inversion H; subst; cbn;
+    rewrite ?N.ltb_lt, ?N.eqb_eq in *; try reflexivity; try assumption; try lia; destruct op; cbn; lia.
+Qed.
+
+Lemma un_ty_wf op k w k' w' : un_ty op (Ty k w) = Some (Ty k' w') -> wf_scalar k w = true -> wf_scalar k' w' = true.
+Proof.
+  destruct op, k; cbn; intros H A; try discriminate H; inversion H; subst; auto.
+Qed.
+
+Lemma un_ty_scalar op t t' : un_ty op t = Some t' -> exists k w, t' = Ty k w.
+Proof.
+  destruct t as [k w|]; cbn; [|discriminate]. destruct op, k; cbn; intros H; try discriminate H; inversion H; eauto.
+Qed.
+
+Lemma join_ty_wf ka wa kb wb t :
+  join_ty (Ty ka wa) (Ty kb wb) = Some t -> wf_scalar ka wa = true -> wf_scalar kb wb = true ->
+  exists w, t = Ty ka w /\ wf_scalar ka w = true /\ ka = kb.
+Proof.
+  cbn. destruct (kind_eqb ka kb) eqn:E; [|discriminate]. apply kind_eqb_ok in E. subst kb.
+  destruct ka; cbn; intros H A B; ifs H; inversion H; subst; eexists; repeat split; auto;
+    rewrite ?N.ltb_lt in *; lia.
+Qed.
+
+(** ** the operators produce values of their documented type *)
+Lemma bin_eval_ok op ta tb t va vb :
+  bin_ty op ta tb = Some t -> vok ta va = true -> vok tb vb = true -> vok t (bin_eval op va vb) = true.
+Proof.
+  intros Ht Ha Hb.
+  destruct va as [ka wa za| |]; [| reflexivity | reflexivity].
+  destruct vb as [kb wb zb'| |]; [| reflexivity | reflexivity].
+  apply vok_TV in Ha. destruct Ha as (-> & Wa & _). apply vok_TV in Hb. destruct Hb as (-> & Wb & _).
+  unfold bin_eval. rewrite Ht.
+  destruct (bin_ty_scalar _ _ _ _ Ht) as (k & w & ->).
+  destruct (bin_val op ka wa za kb wb zb'); [|reflexivity].
+  apply mk_ok. eapply bin_ty_wf; eauto.
+Qed.
+
+Lemma un_eval_ok op ta t va : un_ty op ta = Some t -> vok ta va = true -> vok t (un_eval op va) = true.
+Proof.
+  intros Ht Ha. destruct va as [k w z| |]; [| reflexivity | reflexivity].
+  apply vok_TV in Ha. destruct Ha as (-> & Wa & _). unfold un_eval. rewrite Ht.
+  destruct (un_ty_scalar _ _ _ Ht) as (k' & w' & ->). apply mk_ok. eapply un_ty_wf; eauto.
+Qed.
+
+Lemma cmp_eval_bool op va vb : vok (Ty KBool 1) (cmp_eval op va vb) = true.
+Proof.
+  destruct va as [ka wa za| |], vb as [kb wb zb'| |]; try reflexivity. unfold cmp_eval.
+  destruct (cmp_ok op (Ty ka wa) (Ty kb wb)); [apply vok_bool|reflexivity].
+Qed.
+
+Lemma chain_eval_bool l : forall prev, vok (Ty KBool 1) (chain_eval prev l) = true.
+Proof.
+  induction l as [|[op v] r IH]; intros prev; cbn [chain_eval]; [reflexivity|].
+  destruct (cmp_eval op prev v); try reflexivity. destruct (chain_eval v r); try reflexivity. apply vok_bool.
+Qed.
+
+Lemma conv_ok k w v : wf_scalar k w = true -> vok (Ty k w) (conv (Some (Ty k w)) v) = true.
+Proof.
+  intros H. destruct v as [k' w' z| |]; cbn; try reflexivity.
+  destruct (kind_eqb k k'); [apply mk_ok; exact H|reflexivity].
+Qed.
+
+Lemma conv_defined t v : defined (conv t v) = true -> exists k w z, v = TV k w z.
+Proof.
+  destruct t as [[k w|]|]; destruct v as [k' w' z| |]; cbn; try discriminate; eauto.
+Qed.
+
+(** ** if-expression / select_with: the common type of the alternatives *)
+Lemma join_all_some first l t : join_all first l = Some t -> first <> None /\ Forall (fun x => x <> None) l.
+Proof.
+  revert first. induction l as [|x r IH]; cbn; intros first H.
+  - split; [congruence|constructor].
+  - destruct (IH _ H) as [A B]. destruct first as [f|], x as [x|]; cbn in A; try congruence.
+    split; [congruence|constructor; [congruence|exact B]].
+Qed.
+
+Definition scalar_wf (t : option ty) : Prop :=
+  match t with Some (Ty k w) => wf_scalar k w = true | _ => False end.
+
+Lemma join_opt_wf a b t : join_opt a b = Some t -> scalar_wf a -> scalar_wf b -> scalar_wf (Some t).
+Proof.
+  destruct a as [[ka wa|]|], b as [[kb wb|]|]; cbn; try discriminate; try tauto.
+  intros H A B. destruct (join_ty_wf _ _ _ _ _ H A B) as (w & -> & W & _). exact W.
+Qed.
+
+Lemma join_all_wf l : forall first t, join_all first l = Some t -> scalar_wf first -> Forall scalar_wf l -> scalar_wf (Some t).
+Proof.
+  induction l as [|x r IH]; cbn; intros first t H A B.
+  - subst. exact A.
+  - inversion B; subst. destruct (join_all_some _ _ _ H) as [N _].
+    destruct (join_opt first x) as [j|] eqn:E; [|congruence].
+    eapply IH; [exact H| |assumption]. eapply join_opt_wf; eauto.
+Qed.
+
+(** a value of type [t] (not undefined) carries exactly [t] *)
+Lemma vok_scalar_wf t k w z : vok t (TV k w z) = true -> scalar_wf (Some t) /\ tyv (TV k w z) = Some t.
+Proof. intros H. apply vok_TV in H. destruct H as (-> & W & _). split; [exact W|reflexivity]. Qed.
+
+Section Sound.
+Variable en : env.
+
+Definition sound (e : texp) : Prop := forall t, tyof e = Some t -> vok t (xeval en e) = true.
+
+Lemma any_bool l : match any_eval l with Some b => vok (Ty KBool 1) (TV KBool 1 (zb b)) = true | None => True end.
+Proof. destruct (any_eval l); [apply vok_bool|exact I]. Qed.
+
+(** alternatives: statically typed expressions, evaluated; when every evaluated alternative converts, their run-time
+    types are the static ones *)
+Lemma alts_types (es : list texp) :
+  Forall sound es ->
+  Forall (fun x => x <> None) (map tyof es) ->
+  (forall v, In v (map (xeval en) es) -> exists k w z, v = TV k w z) ->
+  map tyv (map (xeval en) es) = map tyof es /\ Forall scalar_wf (map tyof es).
+Proof.
+  induction es as [|e r IH]; cbn; intros HS HN HV; [split; [reflexivity|constructor]|].
+  inversion HS as [|? ? Se Sr]; subst. inversion HN as [|? ? Ne Nr]; subst.
+  destruct (tyof e) as [t|] eqn:Te; [|congruence].
+  destruct (HV (xeval en e) (or_introl eq_refl)) as (k & w & z & Ev).
+  pose proof (Se t Te) as Ok. rewrite Ev in Ok. destruct (vok_scalar_wf _ _ _ _ Ok) as [W T].
+  destruct IH as [A B]; auto.
+  rewrite Ev. cbn [tyv]. cbn [tyv] in T. rewrite T, A. split; [reflexivity|constructor; assumption].
+Qed.
+
+Ltac disc := let H := fresh in intro H; discriminate H.
+
+Theorem tyof_sound : forall e, sound e.
+Proof.
+  induction e using texp_ind'; unfold sound in *; intros t; cbn [tyof xeval].
+  - (* XIn *) destruct (wf_ty ti) eqn:W; [|disc]. intros Ht. inversion Ht; subst. cbn.
+    destruct (vok t (nth k en TUndef)) eqn:V; [exact V|reflexivity].
+  - (* XConst *) destruct (wf_scalar k w && in_range k w z) eqn:W; [|disc]. intros Ht. inversion Ht; subst.
+    apply andb_true_iff in W. apply vok_TV. tauto.
+  - (* XUn *) destruct (tyof e) as [ta|] eqn:Ta; [|disc]. intros Ht. eapply un_eval_ok; eauto.
+  - (* XBin *) destruct (tyof e1) as [ta|] eqn:Ta; [|disc]. destruct (tyof e2) as [tb|] eqn:Tb; [|disc].
+    intros Ht. eapply bin_eval_ok; eauto.
+  - (* XCmp *) destruct (tyof e1) as [ta|]; [|disc]. destruct (tyof e2) as [tb|]; [|disc].
+    destruct (cmp_ok op ta tb); [|disc]. intros Ht. inversion Ht; subst. apply cmp_eval_bool.
+  - (* XChain *) destruct rest as [|p r]; [disc|].
+    match goal with |- (if ?c then _ else _) = _ -> _ => destruct c; [|disc] end. intros Ht. inversion Ht; subst.
+    apply chain_eval_bool.
+  - (* XIdxC *) destruct (tyof e) as [[k w|]|]; try disc.
+    destruct (is_vec k && (i <? w)%N); [|disc]. intros Ht. inversion Ht; subst.
+    destruct (xeval en e) as [k' w' z| |]; try reflexivity.
+    destruct (is_vec k' && (i <? w')%N); [apply vok_bit|reflexivity].
+  - (* XIdx *) destruct (tyof e1) as [[k w|k w n]|] eqn:Ta; try disc.
+    + destruct (tyof e2) as [[ki wi|]|]; try disc. intros Ht.
+      assert (Hb : t = Ty KBit 1) by (destruct ki; try discriminate Ht; destruct (is_vec k); inversion Ht; reflexivity).
+      subst t. pose proof (IHe1 _ eq_refl) as Oa.
+      destruct (xeval en e1) as [k' w' z|k' w' l|]; try reflexivity.
+      * destruct (xeval en e2) as [ki' wi' ni| |]; try reflexivity.
+        destruct ki'; try reflexivity; destruct (is_vec k'); try reflexivity;
+          match goal with |- vok _ (if ?c then _ else _) = true => destruct c; [apply vok_bit|reflexivity] end.
+      * cbn in Oa. discriminate Oa.
+    + destruct (tyof e2) as [[ki wi|]|]; try disc. intros Ht.
+      assert (Hb : t = Ty k w) by (destruct ki; try discriminate Ht; inversion Ht; reflexivity).
+      subst t. pose proof (IHe1 _ eq_refl) as Oa.
+      destruct (xeval en e1) as [k' w' z|k' w' l|]; try reflexivity.
+      * apply vok_TV in Oa. destruct Oa as [Oa _]. discriminate Oa.
+      * apply vok_TA in Oa. destruct Oa as (Oa & W & R). inversion Oa; subst.
+        destruct (xeval en e2) as [ki' wi' ni| |]; try reflexivity.
+        assert (G : forall ni, vok (Ty k' w') (if (0 <=? ni) && (ni <? Z.of_nat (length l)) then TV k' w' (nth (Z.to_nat ni) l 0) else TUndef) = true).
+        { intros m. destruct ((0 <=? m) && (m <? Z.of_nat (length l))) eqn:B; [|reflexivity].
+          apply andb_true_iff in B. destruct B as [B1 B2]. apply Z.leb_le in B1. apply Z.ltb_lt in B2.
+          apply vok_TV. repeat split; auto. rewrite forallb_forall in R. apply R. apply nth_In. lia. }
+        destruct ki'; try reflexivity; apply G.
+  - (* XSlice *) destruct (tyof e) as [[k w|]|]; try disc.
+    destruct (is_vec k && (lo <=? hi)%N && (hi <? w)%N); [|disc]. intros Ht. inversion Ht; subst.
+    destruct (xeval en e) as [k' w' z| |]; try reflexivity.
+    destruct (is_vec k' && (lo <=? hi)%N && (hi <? w')%N); [|reflexivity].
+    apply mk_ok. cbn. apply N.ltb_lt. lia.
+  - (* XView *) destruct (tyof e) as [[k w|]|] eqn:Ta; try disc.
+    destruct (is_vec k) eqn:Vk; [|disc]. intros Ht. inversion Ht; subst. pose proof (IHe _ eq_refl) as Oa.
+    destruct (xeval en e) as [k' w' z| |]; try reflexivity.
+    apply vok_TV in Oa. destruct Oa as (Oa & W & _). inversion Oa; subst. rewrite Vk.
+    apply mk_ok. pose proof (wf_pos _ _ W Vk). destruct v; cbn; apply N.ltb_lt; assumption.
+  - (* XResize *) destruct (tyof e) as [[k w|]|] eqn:Ta; try disc. intros Ht.
+    pose proof (IHe _ eq_refl) as Oa.
+    assert (K : (k = KU \/ k = KS) /\ (w + z <=? n)%N = true /\ t = Ty k n).
+    { destruct k; try discriminate Ht; destruct (w + z <=? n)%N eqn:E; try discriminate Ht; inversion Ht; auto. }
+    destruct K as (Kk & E & ->).
+    destruct (xeval en e) as [k' w' x| |]; try reflexivity.
+    apply vok_TV in Oa. destruct Oa as (Oa & W & _). inversion Oa; subst k' w'.
+    assert (Wn : wf_scalar k n = true).
+    { apply N.leb_le in E. destruct Kk as [-> | ->]; cbn in *; apply N.ltb_lt in W; apply N.ltb_lt; lia. }
+    destruct Kk as [-> | ->]; rewrite E; apply mk_ok; exact Wn.
+  - (* XIte *) destruct (bool_ty (tyof e1)); [|disc]. intros Ht.
+    destruct (bool_of (xeval en e1)) as [cb|]; [|reflexivity]. cbv zeta.
+    destruct (defined (conv (join_opt (tyv (xeval en e2)) (tyv (xeval en e3))) (xeval en e2)) &&
+              defined (conv (join_opt (tyv (xeval en e2)) (tyv (xeval en e3))) (xeval en e3))) eqn:D; [|reflexivity].
+    apply andb_true_iff in D. destruct D as [D2 D3].
+    destruct (conv_defined _ _ D2) as (k2 & w2 & z2 & E2). destruct (conv_defined _ _ D3) as (k3 & w3 & z3 & E3).
+    destruct (tyof e2) as [ta|] eqn:Ta; [|discriminate Ht]. destruct (tyof e3) as [tb|] eqn:Tb; [|discriminate Ht].
+    pose proof (IHe2 _ eq_refl) as O2. pose proof (IHe3 _ eq_refl) as O3. rewrite E2 in O2. rewrite E3 in O3.
+    destruct (vok_scalar_wf _ _ _ _ O2) as [W2 T2]. destruct (vok_scalar_wf _ _ _ _ O3) as [W3 T3].
+    rewrite E2, E3, T2, T3. rewrite Ht.
+    pose proof (join_opt_wf (Some ta) (Some tb) t Ht W2 W3) as Wt.
+    destruct t as [k w|]; [|contradiction]. destruct cb; apply conv_ok; exact Wt.
+  - (* XSel *) destruct (tyof e) as [[ks ws|]|]; try disc.
+    destruct (negb (kind_eqb ks KInt) && forallb (fun p => in_range ks ws (fst p)) br); [|disc]. intros Ht.
+    destruct (xeval en e) as [ks' ws' z| |]; try reflexivity. cbv zeta.
+    destruct (negb (kind_eqb ks' KInt) && forallb (fun p => in_range ks' ws' (fst p)) br); [|reflexivity].
+    (* the alternatives as one list of expressions *)
+    set (es := map snd br ++ match d with Some x => [x] | None => [] end).
+    assert (Hst : map (fun p => tyof (snd p)) br ++ match d with Some x => [tyof x] | None => [] end = map tyof es).
+    { unfold es. rewrite map_app, map_map. destruct d; reflexivity. }
+    assert (Hdy : map snd (map (fun p => (fst p, xeval en (snd p))) br) ++
+                  match match d with Some x => Some (xeval en x) | None => None end with Some x => [x] | None => [] end
+                  = map (xeval en) es).
+    { unfold es. rewrite map_app, !map_map. destruct d; reflexivity. }
+    rewrite Hst in Ht. rewrite Hdy.
+    assert (HS : Forall sound es).
+    { unfold es. apply Forall_app. split.
+      - clear -H. induction H; cbn; constructor; auto.
+      - destruct d; constructor; auto. }
+    destruct (map tyof es) as [|t0 r] eqn:Ets; [discriminate Ht|].
+    destruct (map tyv (map (xeval en) es)) as [|d0 dr] eqn:Edy; [reflexivity|].
+    destruct (forallb (fun v => defined (conv (join_all d0 dr) v)) (map (xeval en) es)) eqn:D; [|reflexivity].
+    destruct (join_all_some _ _ _ Ht) as [N0 Nr].
+    assert (HV : forall v, In v (map (xeval en) es) -> exists k w z0, v = TV k w z0).
+    { intros v Hv. rewrite forallb_forall in D. apply (conv_defined _ _ (D v Hv)). }
+    destruct (alts_types es HS) as [A B]; [rewrite Ets; constructor; assumption|exact HV|].
+    rewrite Ets in A, B. rewrite Edy in A. inversion A; subst d0 dr. rewrite Ht.
+    inversion B as [|? ? B0 Br]; subst.
+    pose proof (join_all_wf _ _ _ Ht B0 Br) as Wt.
+    destruct t as [k w|]; [|contradiction].
+    destruct (sel_pick z _ _); [apply conv_ok; exact Wt|reflexivity].
+  - (* XAny *) destruct l as [|x r]; [disc|].
+    match goal with |- (if ?c then _ else _) = _ -> _ => destruct c; [|disc] end. intros Ht. inversion Ht; subst.
+    destruct (any_eval _); [apply vok_bool|reflexivity].
+  - (* XAll *) destruct l as [|x r]; [disc|].
+    match goal with |- (if ?c then _ else _) = _ -> _ => destruct c; [|disc] end. intros Ht. inversion Ht; subst.
+    destruct (all_eval _); [apply vok_bool|reflexivity].
+  - (* XArr *) destruct l as [|x r]; [disc|]. cbn [map].
+    destruct (tyof x) as [[k w|]|] eqn:Tx; try disc.
+    destruct (same_all (Ty k w) (map tyof r)) eqn:SA; [|disc]. intros Ht. inversion Ht; subst.
+    inversion H as [|? ? Hx Hr]; subst. pose proof (Hx _ Tx) as Ox.
+    destruct (xeval en x) as [k' w' z| |]; try reflexivity.
+    apply vok_TV in Ox. destruct Ox as (Ox & W & Rz). inversion Ox; subst k' w'.
+    assert (G : forall r, Forall sound r -> same_all (Ty k w) (map tyof r) = true ->
+                match arr_vals k w (map (xeval en) r) with
+                | Some zs => length zs = length r /\ forallb (in_range k w) zs = true
+                | None => True end).
+    { clear. induction r as [|y r IH]; cbn [map same_all arr_vals]; intros HS SA; [cbn; auto|].
+      inversion HS as [|? ? Sy Sr]; subst.
+      destruct (tyof y) as [ty|] eqn:Ty'; [|discriminate]. apply andb_true_iff in SA. destruct SA as [E SA].
+      apply ty_eqb_ok in E. subst ty. pose proof (Sy _ Ty') as Oy.
+      destruct (xeval en y) as [k' w' z| |]; auto.
+      destruct (kind_eqb k k' && (w =? w')%N); auto.
+      specialize (IH Sr SA). destruct (arr_vals k w (map (xeval en) r)); auto.
+      destruct IH as [L F]. apply vok_TV in Oy. destruct Oy as (Oy & _ & Rz). inversion Oy; subst.
+      cbn. rewrite L, Rz, F. auto. }
+    specialize (G r Hr SA). destruct (arr_vals k w (map (xeval en) r)) as [zs|]; [|reflexivity].
+    destruct G as [L F]. unfold vok. cbn [length forallb]. rewrite L, ty_eqb_refl, W, Rz, F. reflexivity.
+Qed.
+End Sound.
+
+(** ** C02_type_width *)
+Theorem type_width : forall e t en, tyof e = Some t -> vok t (xeval en e) = true.
+Proof. intros e t en H. exact (tyof_sound en e t H). Qed.
+
+(** the statement is not vacuous: well-typed trees evaluate to proper values *)
+Definition ex_env : env := [TV KU 3 5; TV KS 2 (-2); TV KBit 1 1].
+Definition ex_tree : texp :=
+  XIte (XCmp CLt (XIn 0 (Ty KU 3)) (XConst KInt 0 6))
+       (XView VwS (XBin BConcat (XIn 2 (Ty KBit 1)) (XIn 1 (Ty KS 2))))
+       (XBin BMul (XIn 1 (Ty KS 2)) (XConst KInt 0 (-2)) ).
+Example type_width_nonvacuous :
+  tyof ex_tree = Some (Ty KS 4) /\ xeval ex_env ex_tree = TV KS 4 (-2).
+Proof. vm_compute. auto. Qed.
+
+(** ** agreement with numeric_std on the operand shapes the backend emits (all widths, all values) *)
+Definition rng (k : kind) (w : N) (z : Z) : Prop := wf_scalar k w = true /\ in_range k w z = true.
+
+Lemma rng_U w a : rng KU w a -> 0 <= a < pow2 w.
+Proof. intros [_ H]. cbn in H. apply andb_true_iff in H. destruct H as [A B]. apply Z.leb_le in A. apply Z.ltb_lt in B. lia. Qed.
+
+Lemma rng_S w a : rng KS w a -> (0 < w)%N /\ - pow2 (w - 1) <= a < pow2 (w - 1).
+Proof. intros [W H]. cbn in *. apply N.ltb_lt in W. apply andb_true_iff in H. destruct H as [A B]. apply Z.leb_le in A. apply Z.ltb_lt in B. lia. Qed.
+
+Lemma sval_in w a : rng KS w a -> sval w (wrap w a) = a.
+Proof. intros H. destruct (rng_S _ _ H). apply sval_wrap; assumption. Qed.
+
+Lemma wrap_sval_wrap w z : wrap w (sval w (wrap w z)) = wrap w z.
+Proof. apply wrap_sval. apply wrap_range. Qed.
+
+Definition arith_op (op : bop) : option binop :=
+  match op with
+  | BAdd => Some OAdd | BSub => Some OSub | BMul => Some OMul
+  | BTruncDiv => Some ODiv | BMod => Some OMod | BRem => Some ORem
+  | _ => None
+  end.
+
+(** [+ - *] on two Unsigned or two Signed operands of any widths *)
+Theorem arith_agrees_UU op o wa wb a b :
+  arith_op op = Some o -> (op = BAdd \/ op = BSub \/ op = BMul) -> rng KU wa a -> rng KU wb b ->
+  eval_binop o (scalar_value KU wa a) (scalar_value KU wb b) = Ok (to_value (bin_eval op (TV KU wa a) (TV KU wb b))).
+Proof. intros Ho [-> | [-> | ->]] _ _; inversion Ho; subst; reflexivity. Qed.
+
+Theorem arith_agrees_SS op o wa wb a b :
+  arith_op op = Some o -> (op = BAdd \/ op = BSub \/ op = BMul) -> rng KS wa a -> rng KS wb b ->
+  eval_binop o (scalar_value KS wa a) (scalar_value KS wb b) = Ok (to_value (bin_eval op (TV KS wa a) (TV KS wb b))).
+Proof.
+  intros Ho Hop Ha Hb. pose proof (sval_in _ _ Ha) as Ea. pose proof (sval_in _ _ Hb) as Eb.
+  destruct Hop as [-> | [-> | ->]]; inversion Ho; subst; cbn; rewrite Ea, Eb; unfold mkS, mk, norm; cbn;
+    rewrite wrap_sval_wrap; reflexivity.
+Qed.
+
+(** truncating division, mod, rem: defined iff the divisor is non-zero, same value and width *)
+Theorem divmod_agrees_UU op o wa wb a b :
+  arith_op op = Some o -> (op = BTruncDiv \/ op = BMod \/ op = BRem) -> rng KU wa a -> rng KU wb b -> b <> 0 ->
+  eval_binop o (scalar_value KU wa a) (scalar_value KU wb b) = Ok (to_value (bin_eval op (TV KU wa a) (TV KU wb b))).
+Proof.
+  intros Ho Hop Ha Hb Hz. pose proof (rng_U _ _ Ha). pose proof (rng_U _ _ Hb).
+  assert (Eb : (b =? 0) = false) by (apply Z.eqb_neq; exact Hz).
+  destruct Hop as [-> | [-> | ->]]; inversion Ho; subst; cbn; rewrite Eb; unfold mkU, mk, norm; cbn.
+  - rewrite Z.quot_div_nonneg by lia. reflexivity.
+  - reflexivity.
+  - rewrite Z.rem_mod_nonneg by lia. reflexivity.
+Qed.
+
+Theorem divmod_agrees_SS op o wa wb a b :
+  arith_op op = Some o -> (op = BTruncDiv \/ op = BMod \/ op = BRem) -> rng KS wa a -> rng KS wb b -> b <> 0 ->
+  eval_binop o (scalar_value KS wa a) (scalar_value KS wb b) = Ok (to_value (bin_eval op (TV KS wa a) (TV KS wb b))).
+Proof.
+  intros Ho Hop Ha Hb Hz. pose proof (sval_in _ _ Ha) as Ea. pose proof (sval_in _ _ Hb) as Eb.
+  assert (Ez : (b =? 0) = false) by (apply Z.eqb_neq; exact Hz).
+  assert (Ew : (wrap wb b =? 0) = false).
+  { apply Z.eqb_neq. intros E. rewrite E in Eb. destruct (rng_S _ _ Hb) as [Wb _].
+    unfold sval in Eb. destruct (N.eqb_spec wb 0); [lia|].
+    pose proof (pow2_pos (wb - 1)). destruct (Z.ltb_spec 0 (pow2 (wb - 1))); lia. }
+  destruct Hop as [-> | [-> | ->]]; inversion Ho; subst; cbn; rewrite Ew, Ez, Ea, Eb; unfold mkS, mk, norm; cbn;
+    rewrite wrap_sval_wrap; reflexivity.
+Qed.
+
+Theorem div_by_zero_both_undefined op o k wa wb a :
+  arith_op op = Some o -> (op = BTruncDiv \/ op = BMod \/ op = BRem) -> (k = KU \/ k = KS) ->
+  bin_eval op (TV k wa a) (TV k wb 0) = TUndef /\ eval_binop o (scalar_value k wa a) (scalar_value k wb 0) = Err EDivZero.
+Proof.
+  intros Ho Hop Hk.
+  assert (W0 : wrap wb 0 = 0) by (unfold wrap; apply Z.mod_0_l; pose proof (pow2_pos wb); lia).
+  destruct Hk as [-> | ->]; destruct Hop as [-> | [-> | ->]]; inversion Ho; subst; cbn; rewrite ?W0; cbn; auto.
+Qed.
+
+Definition cmp_op (op : cop) : binop :=
+  match op with CEq => OEq | CNe => ONe | CLt => OLt | CLe => OLe | CGt => OGt | CGe => OGe end.
+
+Lemma cmp_same op x y : cmp_z (cmp_op op) x y = cmp_val op x y.
+Proof. destruct op; reflexivity. Qed.
+
+Lemma truthy_zb b : truthy (zb b) = b.
+Proof. destruct b; reflexivity. Qed.
+
+Theorem compare_agrees_UU op wa wb a b :
+  eval_binop (cmp_op op) (scalar_value KU wa a) (scalar_value KU wb b) = Ok (to_value (cmp_eval op (TV KU wa a) (TV KU wb b))).
+Proof. destruct op; cbn; rewrite truthy_zb; reflexivity. Qed.
+
+Theorem compare_agrees_SS op wa wb a b : rng KS wa a -> rng KS wb b ->
+  eval_binop (cmp_op op) (scalar_value KS wa a) (scalar_value KS wb b) = Ok (to_value (cmp_eval op (TV KS wa a) (TV KS wb b))).
+Proof.
+  intros Ha Hb. pose proof (sval_in _ _ Ha) as Ea. pose proof (sval_in _ _ Hb) as Eb.
+  destruct op; cbn; rewrite Ea, Eb, truthy_zb; reflexivity.
+Qed.
+
+Theorem compare_agrees_U_int op w a n : 0 <= n <= int_max ->
+  eval_binop (cmp_op op) (scalar_value KU w a) (VI n) = Ok (to_value (cmp_eval op (TV KU w a) (TV KInt 0 n))).
+Proof.
+  intros Hn. assert (E : nat_ok n = true) by (unfold nat_ok; apply andb_true_iff; split; apply Z.leb_le; lia).
+  destruct op; cbn; rewrite E, truthy_zb; reflexivity.
+Qed.
+
+(** the int factor of a product is converted to the width of the vector operand by numeric_std: the documented
+    product (wrapped at twice the width) differs as soon as the factor is not representable at that width *)
+Theorem mul_int_refuted : exists w a n,
+  rng KU w a /\ 0 <= n /\
+  eval_binop OMul (scalar_value KU w a) (VI n) <> Ok (to_value (bin_eval BMul (TV KU w a) (TV KInt 0 n))).
+Proof. exists 3%N, 1, 9. split; [split; reflexivity|]. split; [lia|]. vm_compute. intros H. discriminate H. Qed.
+
+Theorem mul_int_agrees_partial w a n : rng KU w a -> 0 <= n < pow2 w -> n <= int_max ->
+  eval_binop OMul (scalar_value KU w a) (VI n) = Ok (to_value (bin_eval BMul (TV KU w a) (TV KInt 0 n))).
+Proof.
+  intros Ha Hn Hm. assert (E : nat_ok n = true) by (unfold nat_ok; apply andb_true_iff; split; apply Z.leb_le; lia).
+  cbn. rewrite E. unfold mkU, to_u. rewrite (wrap_small w n) by lia. reflexivity.
+Qed.
+
+(** unary minus is not defined by numeric_std for unsigned operands; a negative int next to an Unsigned violates
+    the NATURAL subtype of the numeric_std operator: both are emitted for expressions with a documented value *)
+Theorem neg_unsigned_refuted : forall w a,
+  eval_unop UNeg (scalar_value KU w a) = Err ETypeError /\
+  (wf_scalar KU w = true -> un_eval NNeg (TV KU w a) = mk KU w (- a)).
+Proof. intros w a. split; [reflexivity|]. intros _. reflexivity. Qed.
+
+Theorem negative_int_refuted : forall w a n, n < 0 ->
+  eval_binop OAdd (scalar_value KU w a) (VI n) = Err ERange /\ bin_eval BAdd (TV KU w a) (TV KInt 0 n) = mk KU w (a + n).
+Proof.
+  intros w a n Hn. assert (E : nat_ok n = false) by (unfold nat_ok; apply andb_false_iff; left; apply Z.leb_gt; lia).
+  split; [cbn; rewrite E; reflexivity|reflexivity].
+Qed.
+
+Theorem neg_abs_agrees_S w a : rng KS w a ->
+  eval_unop UNeg (scalar_value KS w a) = Ok (to_value (un_eval NNeg (TV KS w a))) /\
+  eval_unop UAbs (scalar_value KS w a) = Ok (to_value (un_eval NAbs (TV KS w a))).
+Proof.
+  intros Ha. pose proof (sval_in _ _ Ha) as Ea.
+  split; cbn; rewrite Ea; unfold mkS, mk, norm; cbn; rewrite wrap_sval_wrap; reflexivity.
+Qed.
+
+(** ** structural properties *)
+Theorem select_first_match z key v r d :
+  sel_pick z ((key, v) :: r) d = (if z =? key then Some v else sel_pick z r d) /\
+  (forall pre, Forall (fun p => fst p <> z) pre -> sel_pick z (pre ++ (z, v) :: r) d = Some v) /\
+  (forall br, Forall (fun p => fst p <> z) br -> sel_pick z br d = d).
+Proof.
+  split; [reflexivity|]. split.
+  - intros pre H. induction H as [|[k x] l Hk _ IH]; cbn; [rewrite Z.eqb_refl; reflexivity|].
+    cbn in Hk. destruct (Z.eqb_spec z k); [congruence|exact IH].
+  - intros br H. induction H as [|[k x] l Hk _ IH]; cbn; [reflexivity|].
+    cbn in Hk. destruct (Z.eqb_spec z k); [congruence|exact IH].
+Qed.
+
+Theorem chained_compare_is_conjunction en a o1 b o2 c :
+  xeval en (XChain a [(o1, b); (o2, c)]) =
+  match xeval en (XCmp o1 a b), xeval en (XCmp o2 b c) with
+  | TV _ _ x, TV _ _ y => TV KBool 1 (zb (truthy x && truthy y))
+  | _, _ => TUndef
+  end.
+Proof.
+  cbn [xeval map fst snd chain_eval].
+  destruct (cmp_eval o1 (xeval en a) (xeval en b)) as [k w x| |]; try reflexivity.
+  destruct (cmp_eval o2 (xeval en b) (xeval en c)) as [k' w' y| |] eqn:E; try reflexivity.
+  assert (T : truthy (zb (truthy y && truthy 1)) = truthy y) by (rewrite truthy_zb; cbn; apply andb_true_r).
+  unfold cmp_eval in E. destruct (xeval en b), (xeval en c); try discriminate E.
+  destruct (cmp_ok _ _ _); [|discriminate E]. inversion E; subst. cbn [chain_eval].
+  rewrite T. reflexivity.
+Qed.
+
+Lemma concat_range wa wb a b : 0 <= a < pow2 wa -> 0 <= b < pow2 wb -> 0 <= a * pow2 wb + b < pow2 (wa + wb).
+Proof. intros Ha Hb. rewrite pow2_add. nia. Qed.
+
+(** the left operand of [@] forms the most significant bits, for every pair of vector kinds *)
+Theorem concat_msb_left ka wa a kb wb b :
+  is_vec ka = true -> is_vec kb = true -> rng ka wa a -> rng kb wb b ->
+  exists z, bin_eval BConcat (TV ka wa a) (TV kb wb b) = TV KBV (wa + wb) z /\
+            getslice z wb wa = pat ka wa a /\ getslice z 0 wb = pat kb wb b.
+Proof.
+  intros Va Vb Ha Hb.
+  assert (Pa : 0 <= pat ka wa a < pow2 wa).
+  { destruct ka; try discriminate Va; cbn; [apply rng_U; destruct Ha; split; assumption|apply rng_U; exact Ha|apply wrap_range]. }
+  assert (Pb : 0 <= pat kb wb b < pow2 wb).
+  { destruct kb; try discriminate Vb; cbn; [apply rng_U; destruct Hb; split; assumption|apply rng_U; exact Hb|apply wrap_range]. }
+  exists (pat ka wa a * pow2 wb + pat kb wb b).
+  assert (E : bin_eval BConcat (TV ka wa a) (TV kb wb b) = TV KBV (wa + wb) (pat ka wa a * pow2 wb + pat kb wb b)).
+  { unfold bin_eval. assert (T : bin_ty BConcat (Ty ka wa) (Ty kb wb) = Some (Ty KBV (wa + wb))).
+    { cbn. rewrite Va, Vb. reflexivity. }
+    rewrite T. cbn [bin_val]. unfold mk. cbn [norm]. rewrite wrap_small by (apply concat_range; assumption). reflexivity. }
+  split; [exact E|]. pose proof (pow2_pos wb). unfold getslice. split.
+  - rewrite Z.div_add_l by lia. rewrite (Z.div_small (pat kb wb b)) by lia. rewrite Z.add_0_r. apply Z.mod_small; lia.
+  - rewrite pow2_0, Z.div_1_r. rewrite Z.add_comm, Z.mod_add by lia. apply Z.mod_small; lia.
+Qed.
+
+(** [>>] : Unsigned - the vacated upper bits are zero (the value is divided by 2^n);
+          Signed - the sign is kept (the value is divided by 2^n rounding down), which differs from a logical shift *)
+Theorem shift_right_kind w a n : 0 <= n ->
+  (rng KU w a -> bin_eval BShr (TV KU w a) (TV KInt 0 n) = TV KU w (a / 2 ^ n) /\ 0 <= a / 2 ^ n <= a) /\
+  (rng KS w a -> bin_eval BShr (TV KS w a) (TV KInt 0 n) = TV KS w (a / 2 ^ n) /\ (a < 0 <-> a / 2 ^ n < 0)).
+Proof.
+  intros Hn. assert (P : 0 < 2 ^ n) by (apply Z.pow_pos_nonneg; lia).
+  assert (L : (n <? 0) = false) by (apply Z.ltb_ge; lia).
+  split; intros Ha.
+  - pose proof (rng_U _ _ Ha) as R.
+    assert (D : 0 <= a / 2 ^ n <= a).
+    { split; [apply Z.div_pos; lia|]. apply Z.div_le_upper_bound; [lia|]. nia. }
+    split; [|exact D]. unfold bin_eval. cbn. rewrite L. unfold mk. cbn [norm]. rewrite wrap_small by lia. reflexivity.
+  - destruct (rng_S _ _ Ha) as [W R].
+    assert (D : - pow2 (w - 1) <= a / 2 ^ n < pow2 (w - 1)).
+    { split.
+      - apply Z.div_le_lower_bound; [lia|]. pose proof (pow2_pos (w - 1)). nia.
+      - apply Z.div_lt_upper_bound; [lia|]. pose proof (pow2_pos (w - 1)). nia. }
+    split.
+    + unfold bin_eval. cbn. rewrite L. unfold mk. cbn [norm]. rewrite sval_wrap by assumption. reflexivity.
+    + split; intros H.
+      * apply Z.div_lt_upper_bound; lia.
+      * destruct (Z.lt_ge_cases a 0) as [|G]; [assumption|]. pose proof (Z.div_pos a (2 ^ n) G P). lia.
+Qed.
+
+Example shift_right_signed_is_not_logical :
+  bin_eval BShr (TV KS 3 (-4)) (TV KInt 0 1) = TV KS 3 (-2) /\
+  bin_eval BShr (TV KU 3 4) (TV KInt 0 1) = TV KU 3 2 /\
+  sval 3 (pat KS 3 (-4) / 2) = 2.
+Proof. vm_compute. auto. Qed.
